@@ -708,6 +708,9 @@ class Interp(object):
                         attrs.append(b)
         return names, attrs
 
+    def _logs(self):
+        return [self.assign_log, self.store_log, self.call_log, self.loop_log, self.alloc_log, self.alias_log, self.while_log]
+
     def _alias_carried(self, body):
         """[(t, s, in-place statement)] for `t = s` (both plain names) followed in the body by an in-place write to t"""
         out = []
@@ -779,6 +782,7 @@ class Interp(object):
         tnames = [n.id for n in ast.walk(st.target) if isinstance(n, ast.Name)]
         carried = [n for n in names if n not in tnames]
         entry = {}
+        really_carried = []
         # a name bound (by `t = s`) to an array from outside the loop and then updated in place: the update is an
         # update of `s`, which the next iteration reads again - `s` is carried from one iteration to the next
         for t_, s_, node_ in self._alias_carried(st.body):
@@ -793,6 +797,29 @@ class Interp(object):
                 if self._accum_terms(st.body, n) is None and self._is_read_before_write(st.body, n) \
                         and not self._elementwise_own_index(st.body, n, tnames):
                     body_state.env[n] = unk("carried", n, st.lineno)
+                    really_carried.append(n)
+        if really_carried and isinstance(it, RangeVal) and isinstance(tv, Rat) and isinstance(tv.single_atom(), Sym):
+            # induction on the trip count: if the value carried into the next iteration is a function g(i) of the loop variable
+            # only (not of what was carried in), then iteration i > lo starts with g(i - step); if the value the loop is entered
+            # with equals g(lo - step) as well, every iteration starts with g(i - step).  Probe pass, then the real pass.
+            marks = [len(x) for x in self._logs()]
+            probe = body_state.fork()
+            p_outs = [o for o in self.exec_block(st.body, [probe], ctx) if o.ret is NORET and o.flow in (None, "continue")]
+            for lg, m_ in zip(self._logs(), marks):
+                del lg[m_:]
+            lvs = tv.single_atom()
+            for n in really_carried:
+                upd = [o.env.get(n) for o in p_outs]
+                if not upd or not all(isinstance(u, Rat) for u in upd) or any(vkey(u) != vkey(upd[0]) for u in upd):
+                    continue
+                g = upd[0]
+                if has_unknown(g):
+                    continue
+                prev = g.subst(lambda a: (tv - it.step) if a == lvs else None)
+                at_entry = g.subst(lambda a: (it.lo - it.step) if a == lvs else None)
+                e0 = entry.get(n)
+                if isinstance(e0, Rat) and (vkey(e0) == vkey(at_entry) or _safe_equals(e0, at_entry)):
+                    body_state.env[n] = prev
         outs = self.exec_block(st.body, [body_state], ctx)
         ctx.loop_depth -= 1
         live = [o for o in outs if o.ret is NORET]
@@ -1600,6 +1627,13 @@ class Interp(object):
             if r is not NotImplemented:
                 return r
         return Rat.atom(Fn("?ext:" + dotted, tuple(args) + tuple(("kw:" + k, v) for k, v in sorted(kwargs.items()))))
+
+
+def _safe_equals(a, b):
+    try:
+        return a.equals(b)
+    except Exception:
+        return False
 
 
 def _literal_value(node):
